@@ -85,6 +85,7 @@ PAYLOADS = [
     b" run C:\\Users\\Public\\evil.dll /s (quiet)",
     b' <iframe src="http://evil.example.com/gate.php" width=0></iframe>',
     (b" padded text with http://pad.example.com/x.exe inside and much filler: " + b"lorem ipsum dolor sit amet " * 22)[:600],
+    b" var nop = %u9090%u9090 + %41; get http://evil.example.com/n.exe ok",  # literal text that LOOKS like escapes of a layer above it
 ]
 EMBED = [(b"", b""), (b"xx ", b" yy"), (b"lorem ipsum: -- 17 ", b" ;ipsum"), (b"a\nb\n\t", b"\n\nz"), (b"0 ", b""), (b"", b"\x00tail")]
 HEIGHT = {"quick": 2, "thorough": 3}
@@ -96,7 +97,7 @@ def describe(tier):
     return {
         "rule": (
             f"{len(ENC)} encoders {[e.name for e in ENC]}, each with its documented domain, an own encoder and the expected (type, label). "
-            f"ALL stacks of height 1..{HEIGHT[tier]} x {len(PAYLOADS)} payloads (URL+exe, IP, e-mail+domain, Windows path, 600-byte padded text) x {len(EMBED)} embeddings x depth "
+            f"ALL stacks of height 1..{HEIGHT[tier]} x {len(PAYLOADS)} payloads (URL+exe, IP, e-mail+domain, Windows path, iframe, literal %uXXXX / %XX text that must survive the layers above it, 600-byte padded text) x {len(EMBED)} embeddings x depth "
             f"limits {{height, height+1, 10}} (and limit 1 followed by an in-place scan_node(tree) and a second flatten(), which must equal the flatten() of a copy of the expanded tree), ALL stacks of height {H_PARTIAL[tier]} x 2 payloads x 2 embeddings at depth 10, every single encoder repeated 1..11 times, and every encoder around payloads of 1 kB .. 16 kB (thorough .. 70 kB, crossing 65536) with the indicators at the end "
             "(depth limit 10 bites at layer 11). Two-stacks documents: the same encoded script twice in one document, once under one more (call-form) layer, in both orders at depth limits 2 / 3 / 10 - each copy peeled as far as its own depth allows. After-failure histories: every stack of height 1..2 is scanned once on a scanner whose extra user decoder raises (RuntimeError / KeyboardInterrupt) on the innermost plaintext, the caller catches it, and the same scanner must then peel the same document completely. Isolation histories: for EVERY entry i of the default registry (and list operations clear/reverse/del/append/insert/slice-assign) another default scanner's public `decoders` list is customised in place, then a brand-new default Multidecoder() must peel every height-1 stack and 3 height-2 stacks. Stacks whose intermediate text leaves the next encoder's domain, and embeddings that are not neutral for the "
             "outermost encoder (bare base64/hex next to LF-joined words; cmd with trailing text), are pruned and counted. Oracle = the stack itself: a chain "
